@@ -31,12 +31,18 @@ struct Race {
 
 struct Switch { uint64_t at; int to; int forced; };   // forced: taken because the running thread finished or blocked after step `at`
 
+// policy 5: a script - run thread `tid` for n logged events (kind 0), for n completed operations (kind 1, see op_boundary) or
+// until it ends (kind 2), then go on to the next entry; used for schedules that park one thread while another does a lot
+struct ScriptStep { int tid; int kind; uint64_t n; };
+
 struct Config {
     int nthreads = 2;
     // policy: 0 replay (explicit switches), 1 random(p = 1/den), 2 round-robin(q), 3 pct(depth)
     int policy = 1; uint64_t den = 16; uint64_t quantum = 2; int pct_depth = 2; uint64_t pct_est_steps = 1000;
     uint64_t sched_seed = 1;
     std::vector<Switch> replay;
+    std::vector<ScriptStep> script;
+    bool op_boundaries = false;         // operation boundaries are scheduling points (set for scripted plans and their replays alike)
     uint64_t step_budget = 2000000;
     bool keep_sync_state = false;       // the main thread already made library calls since reset_library_globals() (object handoff)
 };
@@ -87,6 +93,7 @@ int finished_thread_owning(const void *p);
 
 // harness-level handoff between simulated threads: post(k) marks k done (release); wait(k) blocks the calling simulated
 // thread until k was posted (acquire).  No-ops outside a concurrent run.
+void op_boundary();                                 // the calling simulated thread has completed one operation of its program (policy 5 counts them)
 void post(const void *k);
 void wait(const void *k);
 
